@@ -14,6 +14,7 @@ META = {
     "rules": {
         "R07.1": "Best::select returns ok_or(Iterator::max(IntoIterator::into_iter(population))); Worst likewise with Iterator::min; on every path",
         "R07.2": "Tournament::select's success path returns Iterator::max over exactly one choose_multiple(population.as_ref(), rng, self.size) call",
+        "R07.4": "the ordering Best/Worst/Tournament maximise is lawful: EcIndividual orders by test_results, TestResults by total_result, Error by the reversed payload order, every comparison method evaluated under all payload relations (C15's R15.2/R15.4/R15.5 order rules, re-evaluated)",
         "R07.3": "the only error return of Tournament::select is guarded by Lt(population.size(), self.size) (strict), and sampling happens only on its false edge",
     },
     "trusted_base": ["rustc type checker / MIR construction (nightly 1.97)", "std Iterator::max/min", "rand 0.9 IndexedRandom::choose_multiple (uniform k-subset without replacement)", "uecfacts driver + uecheck rule engine"],
@@ -148,3 +149,8 @@ def check_tournament(ctx, only_rule):
         drew = [c for c in p.calls() if callee_is(c, "IndexedRandom::choose_multiple", "IndexedRandom::choose")]
         ctx.check(not drew, "R07.3", "Tournament/no-draw-on-error", "no sampling on the error path", fn.at())
     ctx.floor("R07", len(paths), 2, "Tournament::select return paths")
+    # R07.4: the order being maximised
+    from . import rules_c15
+    rules_c15.check_order_impls(ctx, "R07.4", "ec_core::individual::ec::EcIndividual", "EcIndividual", "test_results", False)
+    rules_c15.check_order_impls(ctx, "R07.4", rules_c15.TR + "TestResults", "TestResults", "total_result", False)
+    rules_c15.check_order_impls(ctx, "R07.4", rules_c15.TR + "Error", "Error", 0, True)
